@@ -107,7 +107,7 @@ func pathOfD(v ssa.Value, d int) string {
 		return "alloc"
 	case *ssa.Phi:
 		if x.Comment != "" {
-			return "φ" + x.Comment
+			return x.Comment // the source variable the phi merges
 		}
 		return "φ"
 	case *ssa.Const:
